@@ -72,6 +72,7 @@ def run(check, prog):
     from . import c01
     c01.f6_copy_metadata(check, prog)
     center_priors(check, prog)
+    centre_plane(check, prog)
     center_priors_structure(check, prog)
     subimage(check, prog)
     subimage_shapes(check, prog)
@@ -187,6 +188,10 @@ def _view_step(t, raw):
     if t[1][2] == 'transpose' and not t[3] and \
             t[2] == (('star', ('attr', raw, 'dims')),):
         return 'transpose'
+    if t[1][2] == 'astype' and not t[3] and t[2] in (
+            (('extref', 'float'),), (('extref', 'numpy.float64'),),
+            (('const', 'float64'),), (('const', 'float'),), (('const', 'f8'),)):
+        return 'float'      # the same numbers, as floating-point values
     if t[1][2] == 'sel' and not t[2] and len(t[3]) == 1 and \
             t[3][0][0] == 'illumination' and t[3][0][1] in (
                 ('attr', raw, 'illumination'),
@@ -285,6 +290,32 @@ def bg_correct(check, prog, canon):
                       'bg_correct [%s]' % mode,
                       '(raw - df) / zero_filter(bg - df)', loc,
                       fail_detail='computes %s' % c0.show(holo)[:200])
+        # ... in floating point: camera images are unsigned integers, and an
+        # unsigned difference wraps around wherever the minuend is the smaller
+        # one (a raw pixel below the dark level).  Every subtraction (and
+        # division) that joins two images has a floating-point operand.
+
+        def floating(t):
+            return any(x[0] == 'call' and isinstance(x[1], tuple) and x[1][0] == 'attr'
+                       and _view_step(x, raw) == 'float' for x in subterms(t)) or any(
+                x[0] == 'call' and x[1] in ('numpy.asarray', 'numpy.array',
+                                            'numpy.asfarray') and
+                (x[1] == 'numpy.asfarray' or any(
+                    k == 'dtype' and v in (('extref', 'float'), ('extref', 'numpy.float64'))
+                    for k, v in x[3]))
+                for x in subterms(t))
+        wraps = []
+        for x in subterms(holo):
+            if x[0] == 'bin' and x[1] == '-' and \
+                    any(y in (raw, bg) for y in subterms(x[2])) and \
+                    not floating(x[2]) and not floating(x[3]):
+                wraps.append(x)
+        check.require(not wraps, 'T3-bg-correct-floating-point', 'bg_correct [%s]' % mode,
+                      'differences of images are taken in floating point', loc,
+                      fail_detail='%s is evaluated in the images\' own dtype: with '
+                      'uint8 frames a raw pixel of 12 over a dark level of 15 gives '
+                      '253, and the corrected pixel 1.37 for -0.016' % (
+                          show(wraps[0])[:100] if wraps else ''))
         # ... pixel by pixel: the guard compares shape and spacing only, so the
         # three images may sit on different coordinates (a cropped hologram and a
         # pre-cropped background; another z).  Arithmetic between two *labelled*
@@ -553,6 +584,75 @@ def center_priors(check, prog):
     check.require(ok, 'T6-center-priors-dimension', 'make_center_priors centre',
                   'centre = center_find(im) * spacing + (x[0], y[0])', loc,
                   fail_detail='centre terms: %s' % [show(c)[:120] for c in cen])
+
+
+def centre_plane(check, prog):
+    """T9: the centre finder works on the x-y plane of the image it is given,
+    whatever other axes the image has and wherever they sit.  calc_holo returns a
+    multi-channel hologram as (illumination, x, y, z): a reduction to two axes by
+    *position* (`deriv[:, :, 0]`) then votes on an (illumination, x) slab, and a
+    blur of the whole value block mixes the channels.  Rule: (a) nothing between
+    the image and the Hough vote drops an axis by a positional subscript;
+    (b) the Gaussian blur is applied to values that have been reduced by axis
+    name (or with one width per axis)."""
+    q = 'holopy.core.process.centerfinder.center_find'
+    fd = prog.func(q)
+    loc = prog.loc(q, fd)
+    it = Interp(prog, max_depth=1)
+    it.analyze(q)
+    hs = [c for c in it.calls if c['name'].endswith('centerfinder.hough')]
+    check.need('Hough vote in center_find', len(hs), 1, 'T9-centre-plane-by-name',
+               'center_find', 'the centre is voted on by hough(col_deriv, row_deriv, ...)',
+               loc)
+    image = sym(fd.args.args[0].arg)
+
+    def positional(t):
+        """positional subscripts (a tuple key with an integer, or a bare integer
+        key) applied to something computed from the image"""
+        out = []
+        for x in subterms(t):
+            if x[0] != 'idx':
+                continue
+            inner = set(subterms(x[1]))
+            if image not in inner and not any(y[0] in ('phi', 'loop') for y in inner):
+                continue
+            if x[1][0] == 'attr' and x[1][2] in ('dims', 'shape', 'coords', 'sizes'):
+                continue        # image.dims[0]: a name, not a slab of values
+            key = x[2]
+            comps = key[1] if key[0] == 'tuple' else (key,)
+            if any(is_num(c) for c in comps):
+                out.append(x)
+        return out
+    for c in hs:
+        bad = []
+        for a in c['args'][:2]:
+            bad += positional(a)
+            bad += [x for x in subterms(a) if x[0] == 'loop']
+        check.require(not bad, 'T9-centre-plane-by-name', 'center_find plane',
+                      'the two gradient arrays reach the Hough vote without a '
+                      'positional reduction of their axes', loc,
+                      fail_detail='%s: extra axes are dropped by position, which takes '
+                      'the first two axes for x and y -- a hologram computed for two '
+                      'wavelengths has dims (illumination, x, y, z) and its centre '
+                      'comes out as [0, 32] for [73, 41]' % show(bad[0])[:100]
+                      if bad else '')
+    gs = [c for c in it.calls if c['name'] == 'scipy.ndimage.gaussian_filter']
+    for c in gs:
+        src = c['args'][0] if c['args'] else None
+        sigma = c['args'][1] if len(c['args']) > 1 else dict(c['kwargs']).get('sigma')
+        by_name = src is not None and any(
+            x[0] == 'call' and isinstance(x[1], tuple) and x[1][0] == 'attr' and
+            x[1][2] in ('isel', 'sel', 'squeeze', 'mean', 'sum')
+            for x in subterms(src))
+        per_axis = sigma is not None and sigma[0] in ('list', 'tuple', 'comp', 'call')
+        check.require(by_name or per_axis, 'T9-centre-plane-by-name', 'center_find blur',
+                      'the blur runs over x and y only (values reduced by axis name '
+                      'first, or one width per axis)', loc,
+                      fail_detail='gaussian_filter(%s, %s) smooths along every axis of '
+                      'the image with the same width: the channels of a colour '
+                      'hologram are mixed before the first one is taken' % (
+                          show(src)[:60] if src else None,
+                          show(sigma)[:30] if sigma else None))
 
 
 def subimage(check, prog):
